@@ -52,7 +52,7 @@ Definition krel (e : ev) : bool :=
   | _ => false
   end.
 
-Definition kirr (s s' : st) : Prop := tr s' = tr s /\ mainq s' = mainq s /\ actors s' = actors s.
+Definition kirr (s s' : st) : Prop := tr s' = tr s /\ mainq s' = mainq s /\ actors s' = actors s /\ dk s' = dk s.
 
 Definition same_view (x y : actor) : Prop :=
   held_of x = held_of y /\ skind (a_state x) = skind (a_state y) /\ a_notify x = a_notify y /\
@@ -86,6 +86,14 @@ Proof.
 Qed.
 
 Ltac kirr_tac := repeat split; reflexivity.
+
+Lemma keff_dk s s1 : keff s s1 -> dk s1 = dk s.
+Proof.
+  intros E. induction E; auto.
+  - destruct H as (_ & _ & _ & D). congruence.
+  - unfold new_actor, log_rec. destruct (_ && _); destruct vis; auto.
+  - unfold submit. destruct q; auto.
+Qed.
 
 Lemma ke_set_env s0 s v : keff s0 s -> keff s0 (set_env s v). Proof. intros; eapply ke_irr; [eassumption | kirr_tac]. Qed.
 Lemma ke_set_nuid s0 s v : keff s0 s -> keff s0 (set_nuid s v). Proof. intros; eapply ke_irr; [eassumption | kirr_tac]. Qed.
